@@ -6,7 +6,7 @@ oracle: deadline bookkeeping written from IEC 60870-5-104 5.2 in Python, evaluat
 import json
 from pathlib import Path
 from vf import core, apci, runner
-from props import c07
+from props import clientlib, c07
 
 LEVEL = "proof"
 T0 = 1000000
@@ -21,7 +21,7 @@ def prebuild():
     c07.model()
 
 
-def params(rng, quick):
+def params(rng, quick, role="client"):
     k = rng.choice([1, 2, 8, 12, 100])
     w = rng.choice([1, 2, 8, 12])
     if rng.chance(3, 4):
@@ -30,8 +30,10 @@ def params(rng, quick):
         t3 = t1 + rng.choice([1, 5, 10, 100])
     else:
         t1, t2, t3 = rng.choice([1, 2, 10, 15, 255]), rng.choice([1, 2, 10, 20, 255]), rng.choice([2, 10, 20, 255])
-        if t3 <= t1:
-            t3 = t1 + 1      # t3 > t1 as IEC 60870-5-104 requires (t3 supervises the idle link, t1 the answer)
+        if t3 <= t1 and role == "client":
+            t3 = t1 + 1      # client scripts keep t3 > t1 (the usual relation: t3 supervises the idle link, t1 the answer); the
+                             # client sends a further TESTFR act every t3 and gives up after the third, which coincides with the
+                             # t1 rule only for t3 > t1 -- t3 <= t1 is exercised on the server role only
     return dict(k=k, w=w, t1=t1, t2=t2, t3=t3)
 
 
@@ -346,6 +348,97 @@ def analyse(ck, role, sid, lines, out, p):
     return problems
 
 
+def run_switchover(ck, rng, quick, hsrv):
+    """a connection that the SERVER deactivates (another connection of the redundancy group sends STARTDT act) still owes the
+    acknowledgement of the I-format APDUs it received: it has to arrive within t2"""
+    scripts, meta = [], {}
+    for i in range(12 if quick else 150):
+        mode = rng.choice([0, 2])
+        w = rng.choice([4, 8, 12])
+        t2 = rng.choice([1, 2, 5, 10])
+        t1 = t2 + rng.choice([3, 5, 10])
+        n = rng.range(1, w - 1)
+        lines = ["cfg k=12 w=%d t1=%d t2=%d t3=%d mode=%d handlers=64 lowq=20 highq=10" % (w, t1, t2, t1 + 50, mode)] + (["group -"] if mode == 2 else []) + \
+                ["start", "connect c0 10.0.0.1:1000", "tick", "rx c0 " + apci.STARTDT_ACT.hex(), "tick"]
+        for q in range(1, n + 1):
+            lines += ["rxi c0 " + c07.peer_asdu(q).hex(), "tick"]
+        pre = rng.choice([0, 1, t2 * 500])
+        lines += ["adv %d" % pre, "tick"] if pre else []
+        lines += ["connect c1 10.0.0.2:1001", "tick", "rx c1 " + apci.STARTDT_ACT.hex(), "tick 2", "adv %d" % (t2 * 1000 - pre + 1), "tick 2"]
+        sid = "sw%d" % i
+        scripts.append((sid, lines)); meta[sid] = (mode, w, t2, n)
+    rs = runner.run_batch(hsrv, scripts, timeout=3600)
+    for sid, lines in scripts:
+        mode, w, t2, n = meta[sid]
+        ck.evaluations += 1
+        o = rs.get(sid, dict(out=[], crash=None))
+        if o["crash"]:
+            ck.fail("input", "crash:%s:%s" % (o["crash"]["kind"], o["crash"]["site"]), "server aborted: %s at %s" % (o["crash"]["kind"], o["crash"]["site"]), {"script": lines, "role": "server", "stderr": o["crash"]["text"]})
+            continue
+        if any(l.split()[:3] == ["ev", "c0", "CLOSED"] for l in o["out"]):
+            continue
+        acked = 0
+        for l in o["out"]:
+            if l.startswith("tx c0 "):
+                for f in apci.split_stream(bytes.fromhex(l.split()[2]))[0]:
+                    a = apci.parse_apdu(f)
+                    if a["kind"] in ("S", "I"):
+                        acked = max(acked, a["nr"])
+        if acked < n:
+            ck.fail("input", "oracle:t2:server", "server (mode %d, w=%d, t2=%d): connection c0 received %d I-format APDUs, was deactivated by the server when c1 sent STARTDT act, and %d ms after the first of them only N(R)=%d has been acknowledged on c0" % (
+                mode, w, t2, n, t2 * 1000 + 1, acked), {"script": lines, "role": "server", "observed": [l[:80] for l in o["out"] if l.startswith(("tx c0", "ev "))][-8:]})
+        ck.nontriv(("switchover", mode, w, t2, n))
+    ck.count("switchover_scripts", len(scripts))
+
+
+def run_testfr(ck, rng, quick, hsrv):
+    """server: TESTFR act after t3 of silence; closed when it stays unanswered for t1 and not before -- for t3 above, equal to
+    and below t1 (the server sends no further TESTFR act while one is pending)"""
+    scripts, meta = [], {}
+    for i in range(16 if quick else 200):
+        t1 = rng.choice([2, 3, 10, 15, 40])
+        t3 = rng.choice([1, t1 - 1, t1, t1 + 1, t1 + 20]) if i % 2 else rng.choice([1, 2, 5, 20, 60])
+        t3 = max(1, t3)
+        parts = rng.choice([1, 2, 3])
+        lines = ["cfg k=12 w=8 t1=%d t2=%d t3=%d handlers=64" % (t1, 1, t3), "start", "connect c0 10.0.0.1:1000", "tick", "rx c0 " + apci.STARTDT_ACT.hex(), "tick",
+                 "adv %d" % (t3 * 1000 + 1), "tick", "mark1"]
+        rem = t1 * 1000 - 1
+        for j in range(parts - 1):
+            d = rng.range(1, max(1, rem - 1))
+            rem -= d
+            lines += ["adv %d" % d, "tick"]
+        lines += ["adv %d" % rem, "tick 2", "mark2", "adv 2", "tick 3", "mark3"]
+        sid = "tf%d" % i
+        scripts.append((sid, lines)); meta[sid] = (t1, t3)
+    rs = runner.run_batch(hsrv, scripts, timeout=3600)
+    for sid, lines in scripts:
+        t1, t3 = meta[sid]
+        ck.evaluations += 1
+        o = rs.get(sid, dict(out=[], crash=None))
+        if o["crash"]:
+            ck.fail("input", "crash:%s:%s" % (o["crash"]["kind"], o["crash"]["site"]), "server aborted: %s at %s" % (o["crash"]["kind"], o["crash"]["site"]), {"script": lines, "role": "server", "stderr": o["crash"]["text"]})
+            continue
+        out = o["out"]
+        m1 = next((i for i, l in enumerate(out) if l.startswith("? mark1")), None)
+        m2 = next((i for i, l in enumerate(out) if l.startswith("? mark2")), None)
+        m3 = next((i for i, l in enumerate(out) if l.startswith("? mark3")), None)
+        if None in (m1, m2, m3):
+            continue
+        tx1 = "".join(l.split()[2] for l in out[:m1] if l.startswith("tx c0 "))
+        closed = lambda seg: any(l.split()[:3] == ["ev", "c0", "CLOSED"] for l in seg)
+        bad = None
+        if apci.TESTFR_ACT.hex() not in tx1:
+            bad = "no TESTFR act %d ms after the last reception (t3=%d s)" % (t3 * 1000 + 1, t3)
+        elif closed(out[:m2]):
+            bad = "connection closed %d ms after TESTFR act was sent, before t1=%d s had passed" % (t1 * 1000 - 1, t1)
+        elif not closed(out[m2:m3]):
+            bad = "connection still open %d ms after an unanswered TESTFR act, t1=%d s (t3=%d s)" % (t1 * 1000 + 1, t1, t3)
+        if bad:
+            ck.fail("input", "oracle:testfr-t1:server", "server: " + bad, {"script": lines, "role": "server", "observed": [l[:80] for l in out if l.startswith(("tx c0", "ev "))][-8:]})
+        ck.nontriv(("testfr", t1, t3))
+    ck.count("testfr_scripts", len(scripts))
+
+
 def run(ck):
     quick = ck.tier == "quick"
     rng = core.Rng(ck.seed)
@@ -366,7 +459,7 @@ def run(ck):
     n = 150 if quick else 3000
     ss, cs, meta = [], [], {}
     for i in range(n):
-        p = params(rng, quick)
+        p = params(rng, quick, "server")
         sid = "s%d" % i
         ss.append((sid, gen_server(rng, p, rng.range(20, 90))))
         meta[sid] = p
@@ -378,6 +471,13 @@ def run(ck):
     rc = runner.run_batch(hcli, cs, timeout=3600)
     rm = runner.run_batch(m, ss, timeout=3600) if m else {}
     ndiff = 0
+    # client: the extracted connection-loop model (Cs104/Client.v) must reproduce the real client's whole trace
+    try:
+        cm = clientlib.model()
+    except Exception as e:
+        cm = None
+        ck.fail("correspondence", "model-build", "extracted client model does not build: " + str(e)[:300], {"theorem": "extraction"})
+    ndiff += clientlib.correspond(ck, cm, cs, rc, "timers")
     for role, scripts, res in (("server", ss, rs), ("client", cs, rc)):
         for sid, lines in scripts:
             ck.evaluations += 1
@@ -399,6 +499,8 @@ def run(ck):
             ck.nontriv((role, tuple(sorted(meta[sid].items())), sid))
             if len(ck.samples) < 4 and ck.evaluations % 97 == 1:
                 ck.sample({"role": role, "params": meta[sid], "script": lines[:14]})
+    run_switchover(ck, rng, quick, hsrv)
+    run_testfr(ck, rng, quick, hsrv)
     ck.count("server_scripts", len(ss))
     ck.count("client_scripts", len(cs))
     ck.extra["disagreements"] = ndiff
